@@ -120,8 +120,8 @@ func c04Inputs(g *Gen, n int) [][]byte {
 	}
 	// a list holding the same deeply nested value twice: de-duplication compares the two members all the way down, and
 	// that comparison must not repeat work per level (fixed defect: activities, actors and collections were compared twice)
-	for _, tn := range []string{"Create", "Person", "Collection", "OrderedCollectionPage", "Note", "Question", "Travel"} {
-		for _, term := range []string{"attachment", "object", "tag", "first"} {
+	for _, tn := range []string{"Create", "Person", "Collection", "OrderedCollection", "CollectionPage", "OrderedCollectionPage", "Note", "Question", "Travel", "Relationship"} {
+		for _, term := range []string{"attachment", "object", "tag", "first", "orderedItems", "items", "inbox", "oneOf", "partOf", "subject"} {
 			a := strings.Repeat(`{"type":"`+tn+`","`+term+`":`, 18) + `{"type":"Note","name":"a"}` + strings.Repeat("}", 18)
 			add([]byte(`{"type":"Note","tag":[` + a + `,` + a + `]}`))
 			add([]byte(`{"type":"OrderedCollection","orderedItems":[` + a + `,"https://example.com/x",` + a + `]}`))
